@@ -5,6 +5,8 @@
      "time"   two tokens, all timestamp/adjustment/age/excess/range combinations, valid prices
      "price"  one token, all prices (min, max over 0..PMaxV with both multipliers), references
               (explicit or mid), deviation percents; Adjust and Adjust;ValidateOne;FromPrice
+     "tv"     oracle time validation (time.rs) of a loaded set of one or two feeds against lower / upper /
+              slot bounds and the max-age validator
      "with"   with_prices over one or two custom feeds incl. provider / feed id / heartbeat /
               open / adjustment flag
    Known design gap (kept visible, see InvBandExceptZeroDev): when floor(ref * k / 100) = 0 the
@@ -42,7 +44,17 @@ InitWith ==
     c = [kind |-> "with", vs |-> [now |-> Now, age |-> age, range |-> range, excess |-> 1], ac |-> ac,
          items |-> IF two THEN <<GoodItem, [known |-> TRUE, tc |-> tc, fd |-> fd]>> ELSE <<[known |-> TRUE, tc |-> tc, fd |-> fd]>>]
 
-Init == CASE Kind = "time" -> InitTime [] Kind = "price" -> InitPrice [] Kind = "with" -> InitWith
+NoTgt == [after |-> NoBound, before |-> NoBound, slot |-> NoBound]
+Bounds(S) == {NoBound} \cup [some : {TRUE}, v : S]
+(* time validation of the loaded set: a good item at Now plus a second feed around it *)
+InitTv ==
+  \E ts \in (Now - 3)..(Now + 1), adj \in {0, 1}, range \in {0, 2, 3}, ma \in 0..3,
+     af \in Bounds((Now - 3)..(Now + 1)), bf \in Bounds({Now - 1, Now}), sl \in Bounds({5, 7}), two \in BOOLEAN :
+    c = [kind |-> "tv", vs |-> [now |-> Now, age |-> 3, range |-> range, excess |-> 1], ac |-> FALSE,
+         tgt |-> [after |-> af, before |-> bf, slot |-> sl], ma |-> ma,
+         items |-> LET it == [GoodItem EXCEPT !.fd.ts = ts, !.tc.adj = adj, !.fd.slot = 4] IN
+                   IF two THEN <<GoodItem, it>> ELSE <<it>>]
+Init == CASE Kind = "time" -> InitTime [] Kind = "price" -> InitPrice [] Kind = "with" -> InitWith [] Kind = "tv" -> InitTv
 Next == UNCHANGED vars
 
 (* events as the real code would produce them if it equals the design *)
@@ -67,7 +79,10 @@ WithEv ==
    seen |-> IF l.err = "" THEN [i \in DOMAIN c.items |->
                LET pr == ParseFeed(c.vs.now, c.items[i].tc, c.items[i].fd, c.ac) IN [min |-> PMin(pr.t.p), max |-> PMax(pr.t.p)]]
             ELSE <<>>,
-   srs |-> l.rs, post |-> [cleared |-> TRUE, n |-> 0], panic |-> FALSE]
+   srs |-> l.rs, post |-> [cleared |-> TRUE, n |-> 0], panic |-> FALSE,
+   tgt |-> IF c.kind = "tv" THEN c.tgt ELSE NoTgt, max_age |-> IF c.kind = "tv" THEN c.ma ELSE 0,
+   vt |-> IF l.err = "" THEN ValidateTime(l.rs, IF c.kind = "tv" THEN c.tgt ELSE NoTgt) ELSE "-",
+   vma |-> IF l.err = "" THEN ValidateTime(l.rs, MaxAgeTarget(c.vs.now, IF c.kind = "tv" THEN c.ma ELSE 0)) ELSE "-"]
 
 (* the deviation check is vacuous when the floored deviation is zero: the only admitted exception *)
 ZeroDev(p, ref, k) == k # 0 /\ Dev(RefOf(p, ref), k) = 0
@@ -84,9 +99,10 @@ InvAdjust == (c.kind = "price" /\ c.k # 0) =>
 InvAdjustOrdered == (c.kind = "price" /\ c.k # 0 /\ c.p.minm = c.p.maxm /\ c.ref.some /\ c.ref.m >= c.p.minm
                      /\ PMin(c.p) <= PMax(c.p)) =>
   LET e == AdjustEv IN e.some => PMin(e.q) <= PMax(e.q)
-InvWith == c.kind = "with" =>
+InvWith == c.kind \in {"with", "tv"} =>
   LET e == WithEv IN
     /\ MonWCleared(e) /\ MonWResult(e) /\ ConformsWith(e)
+    /\ MonTAfter(e) /\ MonTBefore(e) /\ MonTSlot(e) /\ MonTMaxAge(e)
     /\ (\E i \in DOMAIN e.items : e.items[i].tc.dev # 0 /\ Dev(U(e.items[i].fd.price, e.items[i].tc.mult), e.items[i].tc.dev) = 0)
          \/ MonWAccepted(e)
 =============================================================================
